@@ -27,6 +27,21 @@ CLAIMED = {
              "framer is part of C02's proof tree.",
         design_ref="DESIGN.md 7 (C13)", note="E11 (cached_property returns the first computed value; the buffer is immutable)",
         technique="contract-based deductive verification + lemma as ghost client program over contracts"),
+    'C02': dict(
+        text="Unbounded proof for all three source kinds: ccsds_generator is verified with loop invariants (buffer window "
+             "read_buffer == T[R-len:R], position == frame boundary fb(j), yielded == the j consecutive records) against "
+             "the ghost source model E1 in which every read()/recv() returns SOME non-empty prefix of what remains "
+             "(universally quantified fragmentation), any read size, any prefix k, including the > 20 MB buffer trim; "
+             "exactness on well-formed streams is a lemma (ghost client program) over the framer's contract.",
+        design_ref="DESIGN.md 7 (C02)", note="E1 (assumed contract on BufferedIOBase.read/seek and socket.recv)",
+        technique="contract-based deductive verification with loop invariants; lemma over contracts"),
+    'C10': dict(
+        text="Total-correctness proof of the same function for ARBITRARY finite sources: decreases clauses on all three "
+             "loops (termination), every yielded item is complete (its own length field) and a consecutive slice of the "
+             "input, the unconsumed remainder is shorter than one complete record, no exception escapes - for bytes, "
+             "file and socket sources under E1, empty input and every cut point included (symbolic).",
+        design_ref="DESIGN.md 7 (C10)", note="E1; decode-time exceptions of a definition's decoders belong to C07/C08/C14",
+        technique="contract-based deductive verification incl. termination (loop variants)"),
     'C14': dict(
         text="Proof of the cursor accounting clauses on the read path: every read that returns normally has "
              "nbits >= 0 and moves the cursor by exactly nbits (so the cursor is monotone), reads past the end raise "
